@@ -95,6 +95,7 @@ type vfH struct {
 	statvfs      *sftp.StatVFS
 	listEOF      string
 	listShort    int
+	closeErr     error                    // returned by every object Close (the close still counts)
 	listOverride map[string][]os.FileInfo // directory path -> entries to list verbatim
 	log          []string                 // ordered event log: "start WriteAt obj#3", "close obj#3", ...
 }
@@ -658,7 +659,7 @@ func (o *vfHObj) Close() error {
 	}
 	o.mu.Unlock()
 	o.h.event("close obj#%d", o.id)
-	return nil
+	return o.h.closeErr
 }
 
 func (o *vfHObj) TransferError(err error) {
